@@ -46,6 +46,11 @@ def check(ctx):
   r3(ctx)
   r45(ctx)
   r6(ctx)
+  from . import c12 as _c12
+  _c12.observable_truthy(ctx, 'C01.R6')
+  from . import c14 as _c14
+  ctx.rule('C14.R2', 'shared with C14: the framed read loops advance by what was received and raise on an empty chunk (a peer that hangs up must surface as a fault; a loop that spins on b"" never yields and starves the hub, so no timer fires any more)')
+  _c14.r2(ctx)
   r7(ctx)
   r8(ctx)
   sch = prog.func('scales/timer_queue.py', 'TimerQueue.Schedule')
